@@ -37,7 +37,7 @@ fn read_copy(copy: &[u8], intact: &[Value]) -> J {
     let r = guarded(std::panic::AssertUnwindSafe(|| {
         let rd = match Reader::new(copy) {
             Ok(r) => r,
-            Err(_) => return json!({"open_ok": false, "n_ok": 0, "mismatch_at": 0, "n_err": 0, "after_err": 0}),
+            Err(_) => return json!({"open_ok": false, "n_ok": 0, "mismatch_at": 0, "n_err": 0, "after_err": 0, "d_ok": 0, "d_err": 0, "d_after": 0}),
         };
         let (mut n_ok, mut n_err, mut after_err, mut mismatch_at) = (0usize, 0usize, 0usize, 0usize);
         for it in rd {
@@ -51,11 +51,23 @@ fn read_copy(copy: &[u8], intact: &[Value]) -> J {
             }
             if n_ok + n_err > 100_000 { break; }
         }
-        json!({"open_ok": true, "n_ok": small(n_ok), "mismatch_at": small(mismatch_at), "n_err": small(n_err), "after_err": small(after_err)})
+        // the same copy through the schema-aware deserializing iterator (a separate code path in reader/block.rs)
+        let (mut d_ok, mut d_err, mut d_after) = (0usize, 0usize, 0usize);
+        if let Ok(rd2) = Reader::new(copy) {
+            for it in rd2.into_deser_iter::<avro_verif_harness::dynde::Dyn>() {
+                match it {
+                    Ok(_) => { if d_err > 0 { d_after += 1; } d_ok += 1; }
+                    Err(_) => { d_err += 1; }
+                }
+                if d_ok + d_err > 100_000 { break; }
+            }
+        }
+        json!({"open_ok": true, "n_ok": small(n_ok), "mismatch_at": small(mismatch_at), "n_err": small(n_err), "after_err": small(after_err),
+               "d_ok": small(d_ok), "d_err": small(d_err), "d_after": small(d_after)})
     }));
     match r {
         Ok(mut j) => { j["panic"] = J::from(false); j }
-        Err(_) => json!({"open_ok": false, "n_ok": 0, "mismatch_at": 0, "n_err": 0, "after_err": 0, "panic": true}),
+        Err(_) => json!({"open_ok": false, "n_ok": 0, "mismatch_at": 0, "n_err": 0, "after_err": 0, "d_ok": 0, "d_err": 0, "d_after": 0, "panic": true}),
     }
 }
 
